@@ -56,9 +56,10 @@ CodeP(c) == <<"code", c.sid, c.idx>>
 CmtP(cid, part) == <<"cmt", cid, part>>
 
 (* ---- features of a code piece ---- *)
-StartsNew(c) == c # NoCode /\ c.idx = 1 /\ c.k \in {"table", "seq", "view", "ext", "set", "drop", "alter"}
-IsSkip(c) == c # NoCode /\ c.idx = 1 /\ c.k \in {"go", "insert", "grant"}
-IsSet(c) == c # NoCode /\ c.idx = 1 /\ c.k = "set"
+StartsNew(c) == c # NoCode /\ ((c.idx = 1 /\ c.k \in {"table", "seq", "view", "ext", "set", "drop", "alter"}) \/ (c.idx = 2 /\ c.k = "upsert"))
+\* "upsert": INSERT .. ON CONFLICT .. DO UPDATE <line break> SET q = ..;   - a skipped statement whose LAST line starts with SET
+IsSkip(c) == c # NoCode /\ c.idx = 1 /\ c.k \in {"go", "insert", "grant", "upsert"}
+IsSet(c) == c # NoCode /\ ((c.idx = 1 /\ c.k = "set") \/ (c.idx = 2 /\ c.k = "upsert"))
 EndsSemi(c) == c # NoCode /\ c.idx = c.n /\ c.k # "go"
 \* parenthesis balance of the pending statement after this piece: balanced iff the statement is complete or has no parens
 OpensParen(c) == c.k \in {"table", "insert"} /\ c.idx < c.n
@@ -191,12 +192,12 @@ AtBoundary == blk = 0 /\ pos[2] = 1          \* between statements (every statem
 Complete == ended
 \* the statements the grammar must receive: for every complete non-skip, non-set statement its code pieces, in order
 StmtPieces(i) == [j \in 1..stmts[i].n |-> <<"code", i, j>>]
-Expected == LET idx == SelectSeq([i \in 1..(pos[1] - 1) |-> i], LAMBDA i : stmts[i].k \notin {"go", "insert", "grant", "set"})
+Expected == LET idx == SelectSeq([i \in 1..(pos[1] - 1) |-> i], LAMBDA i : stmts[i].k \notin {"go", "insert", "grant", "set", "upsert"})
             IN  [j \in DOMAIN idx |-> StmtPieces(idx[j])]
 \* a line of the form `INSERT ...` / `GRANT ...` is dropped by the skip regex only on its FIRST line; further lines of a
 \* multi-line skipped statement reach the grammar as a statement of their own (and are rejected there)
 ExpectedWithTails ==
-    LET idx == SelectSeq([i \in 1..(pos[1] - 1) |-> i], LAMBDA i : stmts[i].k \notin {"go", "set"} /\ ~(stmts[i].k \in {"insert", "grant"} /\ stmts[i].n = 1))
+    LET idx == SelectSeq([i \in 1..(pos[1] - 1) |-> i], LAMBDA i : stmts[i].k \notin {"go", "set", "upsert"} /\ ~(stmts[i].k \in {"insert", "grant"} /\ stmts[i].n = 1))
     IN  [j \in DOMAIN idx |-> IF stmts[idx[j]].k \in {"insert", "grant"}
                               THEN [q \in 1..(stmts[idx[j]].n - 1) |-> <<"code", idx[j], q + 1>>] ELSE StmtPieces(idx[j])]
 
@@ -220,7 +221,7 @@ CommentsFromSource == /\ \A i \in DOMAIN comments : comments[i][1] = "cmt"
                       /\ \A i, j \in DOMAIN comments : i < j => comments[i][2] <= comments[j][2]
 \* C03: every SET statement followed by another line is emitted exactly once
 SetsEmitted == (AtBoundary /\ Dev = {}) =>
-                 nset + (IF set_line # None THEN 1 ELSE 0) = Cardinality({i \in 1..(pos[1] - 1) : stmts[i].k = "set"})
+                 nset + (IF set_line # None THEN 1 ELSE 0) = Cardinality({i \in 1..(pos[1] - 1) : stmts[i].k \in {"set", "upsert"}})
 
 Emit == (WithHist /\ Complete) =>
           PrintT(<<"BEH", ToJson([stmts |-> stmts, lines |-> lines, expected |-> Expected, submitted |-> submitted, comments |-> comments,
